@@ -26,7 +26,7 @@ def linear_reference(sp, grid):
     return np.array([(scipy.linalg.expm(aug * t) @ x0)[:n] for t in grid])
 
 
-def ivp_reference(sp, grid):
+def ivp_reference(sp, grid, max_step=np.inf):
     names = sp["species"]
 
     def f(t, x):
@@ -37,7 +37,7 @@ def ivp_reference(sp, grid):
     x0 = [sp["x0"][s] for s in names]
     sols = []
     for rtol, atol in ((1e-11, 1e-13), (1e-9, 1e-11)):
-        sol = solve_ivp(f, (grid[0], grid[-1]), x0, method="DOP853", t_eval=grid, rtol=rtol, atol=atol)
+        sol = solve_ivp(f, (grid[0], grid[-1]), x0, method="DOP853", t_eval=grid, rtol=rtol, atol=atol, max_step=max_step)
         if not sol.success or sol.y.shape[1] != len(grid):
             return None
         sols.append(sol.y.T)
@@ -52,23 +52,32 @@ def check(case):
     sp, grid = case["spec"], case["grid"]
     tp = np.array(grid, dtype=float)
     try:
-        xref = linear_reference(sp, grid) if case["family"] == "L" else ivp_reference(sp, grid)
+        if case["family"] == "L":
+            xref = linear_reference(sp, grid)
+        elif case["family"] == "P":
+            xref = ivp_reference(sp, grid, max_step=case["width"] / 4)
+        else:
+            xref = ivp_reference(sp, grid)
     except (ref.Undefined, OverflowError, ZeroDivisionError, ValueError):
         xref = None
     if xref is None or not np.all(np.isfinite(xref)):
         res.skip = "reference integration not trustworthy"
         return res
     names = sp["species"]
+    opts = dict(case.get("options") or {})      # documented solver keywords (hmax, atol, rtol) of the deterministic simulator
     with specmod.quiet():
         M = specmod.to_model(sp)
         if case["surface"] == "model_api":
-            df = py_simulate_model(tp, Model=M)
+            df = py_simulate_model(tp, Model=M, **opts)
             got = df[names].to_numpy(dtype=float)
             tcol = df["time"].to_numpy(dtype=float)
         else:
             I = ModelCSimInterface(M)
             I.py_prep_deterministic_simulation()
-            r = DeterministicSimulator().py_simulate(I, tp)
+            sim = DeterministicSimulator()
+            if case.get("hmax_by_setter") and "hmax" in opts:
+                sim.py_set_hmax(opts.pop("hmax"))
+            r = sim.py_simulate(I, tp, **opts)
             order = [M.get_species2index()[s] for s in names]
             got = np.asarray(r.py_get_result(), dtype=float)[:, order]
             tcol = np.asarray(r.py_get_timepoints(), dtype=float)
@@ -174,8 +183,37 @@ def nonlinear_net(draw, time_dep):
 
 
 @st.composite
+def pulse_case(draw):
+    """A quiet system at steady state hit by a narrow smooth pulse late in the run: only a solver that honours the
+    requested maximum step (keyword hmax / py_set_hmax) sees the pulse at all."""
+    species = draw(gen.species_names(1, 2))
+    b = gen.Builder(draw, species, named_params=False)
+    X = species[0]
+    k0 = draw(st.sampled_from([0.5, 1.0, 2.0]))
+    g = draw(st.sampled_from([0.25, 0.5, 1.0]))
+    amp = draw(st.sampled_from([20.0, 50.0, 100.0]))
+    w = draw(st.sampled_from([0.05, 0.1]))
+    T = draw(st.sampled_from([8.0, 16.0]))
+    tc = T * draw(st.sampled_from([0.5, 0.7, 0.8]))
+    tree = ["add", gen.num(k0), ["mul", gen.num(amp), ["exp", ["neg", ["pow", ["div", ["sub", ["t"], gen.num(tc)], gen.num(w)], gen.num(2)]]]]]
+    b.reactions.append(gen.general([], [X], tree))
+    b.reactions.append(gen.massaction(b, [X], [] if len(species) == 1 else [species[1]], k=g))
+    if len(species) == 2:
+        b.reactions.append(gen.massaction(b, [species[1]], [], k=draw(st.sampled_from([0.5, 1.0]))))
+    x0 = {X: k0 / g}
+    if len(species) == 2:
+        x0[species[1]] = k0 / b.reactions[2]["pd"]["k"]
+    n = draw(st.integers(5, 40))
+    grid = [T * i / (n - 1) for i in range(n)]
+    return {"kind": "ode", "family": "P", "spec": b.spec(x0), "grid": grid, "width": w, "options": {"hmax": w / 4},
+            "hmax_by_setter": draw(st.booleans()), "surface": draw(st.sampled_from(["model_api", "simulator"]))}
+
+
+@st.composite
 def cases(draw):
-    fam = draw(st.sampled_from(["L", "N", "N", "T"]))
+    fam = draw(st.sampled_from(["L", "N", "N", "T", "N", "T", "L", "P"]))
+    if fam == "P":
+        return draw(pulse_case())
     sp = draw(linear_net()) if fam == "L" else draw(nonlinear_net(fam == "T"))
     n = draw(st.integers(2, 40))
     if draw(st.booleans()):
